@@ -9,6 +9,8 @@ CONSTANTS
   MaxBatch = 1
   LogDeletes = FALSE
   ReplayOverwrites = FALSE
+  PointSetName = "all"
+  NoMaint = FALSE
   UseIds = TRUE
   SchemaNames = {}
   VKs = {}
